@@ -210,6 +210,8 @@ pub enum Subtree {
 	/// built with `CidrSubnet::from_v4_prefix`
 	Ip4p([u8; 4], u8),
 	Ip6p([u8; 16], u8),
+	/// built with `CidrSubnet::from_addr_prefix` (the third way to the same subnet)
+	Ipap(std::net::IpAddr, u8),
 }
 
 impl Subtree {
@@ -228,6 +230,7 @@ impl Subtree {
 			)),
 			Subtree::Ip4p(a, p) => GeneralSubtree::IpAddress(CidrSubnet::from_v4_prefix(*a, *p)),
 			Subtree::Ip6p(a, p) => GeneralSubtree::IpAddress(CidrSubnet::from_v6_prefix(*a, *p)),
+			Subtree::Ipap(a, p) => GeneralSubtree::IpAddress(CidrSubnet::from_addr_prefix(*a, *p)),
 		})
 	}
 	pub fn sexp(&self) -> String {
@@ -239,6 +242,8 @@ impl Subtree {
 			Subtree::Ip6(a, m) => tagged("ip6", &[hex(a), hex(m)]),
 			Subtree::Ip4p(a, p) => tagged("ip4p", &[hex(a), p.to_string()]),
 			Subtree::Ip6p(a, p) => tagged("ip6p", &[hex(a), p.to_string()]),
+			Subtree::Ipap(std::net::IpAddr::V4(a), p) => tagged("ip4p", &[hex(&a.octets()), p.to_string()]),
+			Subtree::Ipap(std::net::IpAddr::V6(a), p) => tagged("ip6p", &[hex(&a.octets()), p.to_string()]),
 		}
 	}
 }
